@@ -196,6 +196,7 @@ def main():
     # part B: the loader's import arm performs the copy / alias step for every resolved import
     from checks import c34b
     c34b.run_loader_kernel(C, P)
+    c34b.run_fun_item_kernel(C, P)
     # part C: the checker's side of `ns::item`
     from checks import c34c
     c34c.run_checker_kernel(C, P)
